@@ -5,7 +5,7 @@ from gmc import menu, sim, si, ref
 from gmc.core import Acc
 
 ID = 'C04'
-RULE = ('grid of non-self-locking chains (1-, 2-, 3-stage; ratios, efficiencies, inertias from 3-value lists) x motor {plain, with current '
+RULE = ('grid of chains (1-, 2-, 3-stage, idler, worm stage in either orientation, a self-locking worm stage while it moves as commanded; ratios, efficiencies, inertias from 3-value lists) x motor {plain, with current '
         'data} x duty {1, 0.6, -0.7, inside the dead zone, 3 % outside it on either side} x load/stall {0, 0.5, 1.5, -0.5} x initial speed {0, +, -} x horizon 4/k x '
         'geometric ladder dt = 0.2/k 2^-j; every instant of every run is compared with the closed form under a rigorous explicit-Euler '
         'bound; error ratios between consecutive rungs at t = 1/k and 2/k; canon = (configuration, rung); non-trivial = k > 0 and w0 != w_inf')
@@ -20,7 +20,10 @@ CHAINS = {
     2: [('J', 'S'), ('G', 'S')],
     3: [('J', 'F'), ('J', 'S'), ('G', 'S'), ('J', 'H'), ('G', 'H')],
     4: [('J', 'S'), ('G', 'S'), ('G', 'S')],          # an idler: slave of one mating and master of the next
+    5: [('J', 'Wg'), ('W', 'Ww')],                    # worm stage; variant 1 self-locking (judged while it moves as commanded)
+    6: [('J', 'Ww'), ('W', 'Wg'), ('J', 'S')],        # worm wheel driving the worm gear (speed increaser)
 }
+LOCKING = {(5, 1)}                                    # (stage, variant) built with a friction above the self-locking threshold
 DUTIES = [1, 0.6, -0.7, 0.03, 0.0515, -0.0515]     # dead zone of the menu's motor: |D| <= 0.05; the last two are 3 % outside it
 LOADS = [0.0, 0.5, 1.5, -0.5]
 WINIT = [0.0, 0.6, -0.4]          # fraction of the no-load speed at the output
@@ -33,7 +36,7 @@ def bounds(tier):
 
 def make_spec(stage, variant, cur):
     c = CHAINS[stage]
-    spec = menu.assign(c, motor=menu.MOTOR_CUR if cur else menu.MOTOR_PLAIN)
+    spec = menu.assign(c, motor=menu.MOTOR_CUR if cur else menu.MOTOR_PLAIN, locking=(stage, variant) in LOCKING)
     # rotate teeth / inertias / efficiencies by the variant
     for i, e in enumerate(spec['elements'][1:], 1):
         if 'z' in e:
@@ -88,6 +91,12 @@ def check_config(acc, stage, variant, cur, D, lf, wf, rungs):
     else:
         kk = TmaxD * H * R * R / (Deff * chain.w0 * chain.J)
         w_inf = (Deff * chain.w0 / R) * (1.0 - L / (TmaxD * R * H))
+    if (stage, variant) in LOCKING:
+        # a self-locking chain follows the same linear law as long as it moves in the commanded direction and is not
+        # held: keep the configurations whose whole exact trajectory does (start and limit speed on the duty's side)
+        sgn = 1.0 if D > 0 else -1.0
+        if dead or w_inf is None or sgn * w_inf <= 0 or sgn * w_init < 0 or (w_init == 0.0 and sgn * (w_inf) <= 0):
+            return
     errs = []
     for j in range(rungs):
         dt = 0.2 / kk * 2.0 ** (-j)
